@@ -297,11 +297,16 @@ func init() {
 	})
 
 	register(&propertySpec{
-		ID: "C19", Fixtures: []string{"BUFNEXT"}, NeedCG: true, Quick: cfgAMD32, Thorough: cfgAll,
+		ID: "C19", NeedCG: true, Quick: cfgAMD32, Thorough: cfgAll,
 		Explanation: "Decides necessary conditions for rejecting well-checksummed but inconsistent archives without crashing: all wire integers (18 discovered fields, the recovery exponent, the decoder's int copies) are bounded before conversion, allocation, slicing and division; narrow-type arithmetic does not wrap before widening (WIRE, per GOARCH); recovery blocks have the slice size (SHLEN); mandatory packets are checked before use (NILF); differences used as lengths are non-negative (MKLEN); header-field table lookups stay in range (RANGE); and no buffer that fails the archive's own 16k-hash or MD5 is written (WGUARD).",
 		NotDecided:  []string{"proportional allocation in general (the coder matrix is sized by the highest exponent; the slice size is used as allocation unit)", "full panic freedom", "overflow of products such as index*sliceSize"},
 		Run: func(w *World, r *Report, tier string) {
-			guard(r, "WIRE", func() { ruleWIRE(w, r) })
+			guard(r, "WIRE", func() {
+				// truncation (INSLICE, BUFNEXT) is C13's business: a truncated file is not well-checksummed
+				wireTruncation = false
+				defer func() { wireTruncation = true }()
+				ruleWIRE(w, r)
+			})
 			guard(r, "SHLEN", func() { ruleSHLEN(w, r) })
 			guard(r, "NILF", func() { ruleNILF(w, r) })
 			guard(r, "MKLEN", func() { ruleMKLEN(w, r) })
@@ -323,7 +328,7 @@ func init() {
 			guard(r, "PAIR", func() { rulePAIRERRTYPE(w, r) })
 			guard(r, "GLOB", func() { ruleGLOB(w, r, globOpts{complete: true}) })
 			guard(r, "ENTRY-SEQ", func() { ruleENTRYSEQ(w, r, "par1", "par2") })
-			guard(r, "DETERM", func() { r.rule("DETERM", ruleDETERMText); determPathsPar2(w, r) })
+			guard(r, "DETERM", func() { r.rule("DETERM", ruleDETERMText); determPathsPar2(w, r, false) })
 		},
 	})
 }
